@@ -1,30 +1,29 @@
 """C19 - rate limits bound admitted traffic.
 
-M: RateLimit.tla (S2, TLC exhaustive): the token buckets as engine/src/rate_limiter.rs implements them, one
-   action per critical section, 1-3 caller threads x clock ticks.  Invariants: window bound on the callers'
-   clock (global: as stated; tenant: as stated + one token per other caller, see below), RefundNeverCosts,
-   GlobalExact, NoStarveBelowRate; every action must fire.  Three stricter statements are run expecting the
-   counterexample (they document what the code does not guarantee) and seeded mutations of the algorithm are
-   run to show that the invariants have teeth.
-R: ratelab drives the REAL RateLimiter from 1..8 (directed rows: 64) threads over a seeded grid (burst / steady /
+M: RateLimit.tla (S2, TLC exhaustive): the token buckets as engine/src/rate_limiter.rs implements them (tenant
+   bucket locked from the tenant consume to the verdict, global bucket locked inside), one action per step,
+   1-3 caller threads x 2-3 tenants x clock ticks.  Invariants: window bound on the callers' clock exactly as the
+   property states it (tenant and global), RefundNeutral, RefundNeverCosts, GlobalExact, NoStarveBelowRate,
+   NoTransientWithhold; every action must fire.  The protocol before the repair of check_limit
+   (AtomicTenantGlobal = FALSE: tenant lock released between the steps) is run expecting the three
+   counterexamples that justified the repair, and seeded mutations of the algorithm are run to show that the
+   invariants have teeth.
+R: ratelab drives the REAL RateLimiter from 1..8 (regression rows: 64) threads over a seeded grid (burst / steady /
    on-off / mixed / drain-then-pace / hand-over patterns, three rows built the way kyrodb_server builds it) and
    records every admitted call and a sample of the refused ones with the caller's before/after clock.
+   Regression rows for the repaired defect (tenant admitted one token per concurrent caller above its bound when
+   a refund landed on a bucket refilled next to the withheld token): `holdgate` stops a caller between its global
+   refusal and its refund with the parking_lot gate while others call; `handoff` is the scheduler-only variant.
 O: RateEnvelope.tla (S1), evaluated by TLC over the recordings, is the only source of VIOLATION.
-
-Known mechanism (found by the model, reproduced on the real code by the directed "handoff" rows): with a
-global limit, a caller that holds a tenant token while the global bucket refuses it hides that token from the
-capacity cap; a concurrent call refills the bucket to "full", and the refund lands on top.  The tenant then
-gets up to one token per concurrent caller more than burst + rate * t.  RateEnvelope judges the tenant bound
-twice: as stated (`strict`), and with that allowance (`lenient`).  strict-only rejections carry the finding
-key FINDING so that the lead can list them in known_findings.json; everything else is un-keyed.
 """
 import json, os, random, copy
 import vlib
 from vlib import Check, tlc, run_bin, scratch, seed, log, ToolError
 
-FINDING = "tenant-bound-exceeded-by-refund-after-refill"
 SLACK = {"SlackMilli": 10, "LowerSlackMilli": 1000}
-MUTANTS = ["refund_uncapped", "no_refund", "refund_on_tenant_refusal", "refill_uncapped", "ge_zero"]
+# ("refund_uncapped" is behaviour-preserving now that the tenant bucket stays locked until the refund; it is only
+#  rejected under the old protocol)
+MUTANTS = ["no_refund", "refund_on_tenant_refusal", "refill_uncapped", "ge_zero"]
 
 
 # ------------------------------------------------------------------------------------------------
@@ -33,13 +32,17 @@ MUTANTS = ["refund_uncapped", "no_refund", "refund_on_tenant_refusal", "refill_u
 def model_runs(ck, tier):
     q = tier == "quick"
     info = {}
+    C3 = "{c1,c2,c3}"
     cfgs = [("2 callers, 2 tenants + global, %d ticks" % (3 if q else 4), {"MaxTick": 3 if q else 4}, 6),
-            ("3 callers, 2 tenants + global, %d ticks" % (2 if q else 3), {"Callers": "{c1,c2,c3}", "MaxTick": 2 if q else 3}, 6),
-            ("1 caller: strict statements hold, %d ticks" % (3 if q else 4), {"Callers": "{c1}", "MaxTick": 3 if q else 4}, 4),
-            ("no global bucket: bound as stated, 2 callers, 4 ticks", {"GCap": 0, "MaxTick": 4}, 4)]
+            ("3 callers, 3 tenants + global, %d ticks" % (2 if q else 3), {"Callers": C3, "NT": 3, "MaxTick": 2 if q else 3}, 6),
+            ("1 caller, %d ticks" % (3 if q else 4), {"Callers": "{c1}", "MaxTick": 3 if q else 4}, 4),
+            ("no global bucket, 2 callers, 4 ticks", {"GCap": 0, "MaxTick": 4}, 4)]
     if not q:
-        cfgs += [("2 callers, 1/3-token units, 4 ticks", {"Unit": 3, "MaxTick": 4}, 6),
-                 ("2 callers, capacities 2/3/3, 3 ticks", {"Cap1": 2, "Cap2": 3, "GCap": 3, "MaxTick": 3}, 6)]
+        cfgs += [("3 callers, 3 tenants, global capacity 3, 2 ticks", {"Callers": C3, "NT": 3, "GCap": 3, "MaxTick": 2}, 6),
+                 ("2 callers, 1/3-token units, 4 ticks", {"Unit": 3, "MaxTick": 4}, 6),
+                 ("2 callers, capacities 2/3/3, 3 ticks", {"Cap1": 2, "Cap2": 3, "GCap": 3, "MaxTick": 3}, 6),
+                 ("protocol before the repair, per-caller allowance (Strict=none), 2 callers, 3 ticks",
+                  {"AtomicTenantGlobal": "FALSE", "Strict": '"none"'}, 6)]
     for name, consts, w in cfgs:
         r = tlc("RateLimit", consts=consts, workers=w, coverage=True, timeout=3000)
         ck.add_tlc("RateLimit: " + name, r)
@@ -47,15 +50,15 @@ def model_runs(ck, tier):
         dead = [a for a in need if r.coverage.get(a, 0) == 0]
         if dead:
             raise ToolError("RateLimit (%s): actions never taken: %s" % (name, dead))
-    # statements the code is NOT expected to satisfy: TLC must produce the counterexample
+    # the protocol before the repair must still produce the counterexamples that justified it
     expect = {"window": "TenantWindowBound", "neutral": "RefundNeutral", "withhold": "NoTransientWithhold"}
-    info["model_counterexamples"] = {}
+    info["old_protocol_counterexamples"] = {}
     for s, inv in expect.items():
-        r = tlc("RateLimit", consts={"Strict": '"%s"' % s}, workers=4, expect_violation=True, timeout=900)
-        ck.add_tlc("RateLimit Strict=%s (counterexample expected)" % s, r, note="violated: %s" % r.violation)
-        info["model_counterexamples"][inv] = {"found": r.violation == inv, "depth": r.depth}
+        r = tlc("RateLimit", consts={"AtomicTenantGlobal": "FALSE", "Strict": '"%s"' % s}, workers=4, expect_violation=True, timeout=900)
+        ck.add_tlc("RateLimit, protocol before the repair, Strict=%s (counterexample expected)" % s, r, note="violated: %s" % r.violation)
+        info["old_protocol_counterexamples"][inv] = {"found": r.violation == inv, "depth": r.depth}
         if r.violation != inv:
-            ck.drift("RateLimit Strict=%s: expected a counterexample to %s, TLC reported %s" % (s, inv, r.violation))
+            ck.drift("RateLimit AtomicTenantGlobal=FALSE Strict=%s: expected a counterexample to %s, TLC reported %s" % (s, inv, r.violation))
     # seeded mutations of the algorithm: the invariants must reject each
     muts = MUTANTS if not q else [MUTANTS[(seed() + i) % len(MUTANTS)] for i in range(3)]
     info["model_mutants_rejected"] = {}
@@ -126,12 +129,15 @@ def grid(tier, rng):
     #    refused meanwhile must not have cost it anything (lower clause, no hold allowance: conc = 1)
     r = R([200, 500]); add(rates=[r, 20 * r, 20 * r], grate=2 * r, threads=4, hogs=3, pattern="handoff", off_ms=20, on_ms=R([100, 150]), dur_ms=dur(2 * r, 300))
     # 13 a tenant far above its rate next to a tenant below its rate, global budget with room: the calm tenant is never refused
-    r = R([200, 500]); add(rates=[r, r], grate=R([0, 3 * r]), threads=2, pattern="mixed", pace_pct=R([40, 60]), dur_ms=dur(3 * r, 250))
+    #    (with a global limit: a refused call must not use up global budget; without: tenants must not share a budget)
+    r = R([200, 500]); add(rates=[r, r], grate=3 * r, threads=2, pattern="mixed", pace_pct=R([40, 60]), dur_ms=dur(3 * r, 250))
+    r = R([200, 500]); add(rates=[r, r], grate=0, threads=2, pattern="mixed", pace_pct=R([40, 60]), dur_ms=dur(r, 250))
     # 14 drain the burst, then stay below the rate: the refill must really arrive
     r = R([200, 500]); add(rates=[r], threads=1, pattern="drainpace", on_ms=R([20, 40]), pace_pct=R([50, 70]), dur_ms=dur(r, 300))
-    # directed rows (see module docstring).  holdgate: the schedule of TLC's counterexample (RateLimit, Strict = "window")
-    # forced on the real limiter by gating the holders' lock operations.  handoff: the same effect from the scheduler alone -
-    # 32 callers of tenant 1 keep being refused by a global bucket that 32 callers of 8 other tenants drain; then those stop.
+    # regression rows for the repaired refund-after-refill defect (see module docstring); all must be accepted now.
+    # holdgate: TLC's old-protocol counterexample schedule forced on the real limiter by gating lock operations.
+    # handoff: the scheduler-only variant - 32 callers of tenant 1 keep being refused by a global bucket that 32
+    # callers of 8 other tenants drain; then those stop.
     for h, r, g in ([(2, 20, 1000), (1, 50, 2000)] if q else [(2, 20, 1000), (1, 50, 2000), (3, 10, 500), (2, 100, 20000)]):
         add(rates=[r, 100000], grate=g, threads=h + 1, hogs=h, pattern="holdgate", dur_ms=int(1000 * (3 * h + 3) / r) + 200, directed=True)
     for i in range(2 if q else 8):
@@ -201,7 +207,7 @@ def corrupt(rec, how, rng):
 
 def verdicts(ck, rows, recs, out, count=True):
     """Turn TLC's verdicts into violations; returns summary numbers."""
-    worst_t, worst_g, nref, nkeyed = -10**9, -10**9, 0, 0
+    worst_t, worst_g, nref = -10**9, -10**9, 0
     for row, rec in zip(rows, recs):
         v = out[rec["run"]]
         nref += v["nref"]
@@ -209,22 +215,19 @@ def verdicts(ck, rows, recs, out, count=True):
         for u in v["up"]:
             if u["b"] == 0:
                 worst_g = max(worst_g, u["ex"])
-            elif not row.get("directed"):
+            else:
                 worst_t = max(worst_t, u["ex"])
-            if not (u["strict"] or u["lenient"]):
+            if not u["bad"]:
                 continue
             ok = False
             what = "run %d (%s, %d threads): %s admitted %.3f tokens more than burst + rate * t in a window opened by admitted call #%d (n=%d, rate=%s, burst=%s)" % (
                 rec["run"], row["pattern"], row["threads"], "all tenants together" if u["b"] == 0 else "tenant %d" % u["b"],
                 u["ex"] / 1000.0, u["at"], u["n"], rec["grate"] if u["b"] == 0 else rec["rate"][u["b"] - 1],
                 rec["gburst"] if u["b"] == 0 else rec["burst"][u["b"] - 1])
-            keyed = (not u["lenient"]) and u["b"] != 0
-            nkeyed += keyed
             keep = rec
-            if keyed:   # the tenant's own calls are all that the verdict depends on
-                keep = dict(rec, adm=[e for e in rec["adm"] if e[0] == u["b"]], ref=[])
-            ck.violation({"row": row, "recording": keep, "verdict": v}, ("[strict only: within the hold allowance] " if keyed else "") + what,
-                         finding_key=FINDING if keyed else None)
+            if u["b"] != 0 and not v["low"] and not any(x["bad"] for x in v["up"] if x is not u):
+                keep = dict(rec, adm=[e for e in rec["adm"] if e[0] == u["b"]], ref=[])   # all this verdict depends on
+            ck.violation({"row": row, "recording": keep, "verdict": v}, what)
         if v["low"]:
             ok = False
             q = rec["ref"][v["low"][0] - 1]
@@ -233,8 +236,7 @@ def verdicts(ck, rows, recs, out, count=True):
                          % (rec["run"], row["pattern"], len(v["low"]), q[0], q[1], q[2], q[3]))
         if ok and count:
             ck.cov["traces_validated_against_impl"] += 1
-    return {"worst_tenant_excess_millitokens_grid": worst_t, "worst_global_excess_millitokens": worst_g,
-            "refusals_judged": nref, "strict_only_rejections": nkeyed}
+    return {"worst_tenant_excess_millitokens": worst_t, "worst_global_excess_millitokens": worst_g, "refusals_judged": nref}
 
 
 def selftest(recs, rows, rng):
@@ -255,7 +257,7 @@ def selftest(recs, rows, rng):
 def check_selftest(cases, out):
     for c, how in cases:
         v = out[c["run"]]
-        hit = bool(v["low"]) if how in ("refuse", "starve") else any(u["lenient"] for u in v["up"])
+        hit = bool(v["low"]) if how in ("refuse", "starve") else any(u["bad"] for u in v["up"])
         if not hit:
             raise ToolError("oracle self-test failed: RateEnvelope accepted a recording corrupted by '%s'" % how)
 
@@ -273,18 +275,17 @@ def run(tier):
     check_selftest(cases, out)
     summ = verdicts(ck, rows, recs, out)
     directed = [(w, out[x["run"]]) for w, x in zip(rows, recs) if w.get("directed")]
-    summ["directed_rows"] = len(directed)
-    summ["directed_rows_reproducing"] = sum(1 for w, v in directed if any(u["strict"] for u in v["up"]))
-    summ["directed_excess_millitokens"] = {"%s#%d" % (w["pattern"], w["run"]): max(u["ex"] for u in v["up"] if u["b"] == 1) for w, v in directed}
+    summ["regression_rows"] = len(directed)
+    summ["regression_rows_tenant_excess_millitokens"] = {"%s#%d" % (w["pattern"], w["run"]): max(u["ex"] for u in v["up"] if u["b"] == 1) for w, v in directed}
     for w, x in list(zip(rows, recs))[:3]:
         ck.sample({"row": w, "calls": x["calls"], "refused": x["refused"], "admitted": len(x["adm"]), "verdict": out[x["run"]]["up"]})
     ck.assumptions += [
         "caller clock and the limiter's clock are the same CLOCK_MONOTONIC (std::time::Instant); before rounded down, after rounded up to 1 us",
-        "upper clause slack %d/1000 token for the f64 bucket arithmetic; tenant bound additionally judged with one token per other caller of the tenant (hold allowance) when a global limit exists" % SLACK["SlackMilli"],
-        "lower clause is sound but incomplete: a refusal counts only if tenant budget (minus one token per other caller) and global budget certainly held >= 2 tokens over the whole call",
+        "upper clause slack %d/1000 token for the f64 bucket arithmetic; tenant and global bound judged exactly as stated" % SLACK["SlackMilli"],
+        "lower clause is sound but incomplete: a refusal counts only if the tenant budget and the global budget certainly held >= 2 tokens over the whole call",
         "refusals are sampled (first after each admission per thread + random), admitted calls are complete",
         "server rows build the limiter with the server's own steps (config -> new_with_global, effective max_qps rule); no gRPC server is started",
-        "RateLimit.tla: integer ticks, 1/2-token units, <= 3 callers, <= 4 ticks; lookup folded into the tenant consume",
+        "RateLimit.tla: integer ticks, 1/2- or 1/3-token units, <= 3 callers, <= 3 tenants, <= 4 ticks; lookup and lock acquisition folded into the tenant consume",
     ]
     extra = dict(info)
     extra.update(summ)
